@@ -409,7 +409,7 @@ SPECS["C16"] = dict(
 # C09: abstract half on Pipe (Props/C09.lean, track himpl) + structural half through the codecw family
 SPECS["C09"] = dict(
     title="Streaming codecs: drained output is a prefix of the result; lag is bounded",
-    lean_modules=["Woodpile.Props.C09"],
+    lean_modules=["Woodpile.Props.C09", "Woodpile.Props.C09W"],
     theorems=[
         "Woodpile.Props.C09.drain_commutes",
         "Woodpile.Props.C09.drain_commutes_step",
@@ -419,6 +419,11 @@ SPECS["C09"] = dict(
         "Woodpile.Props.C09.enc_lag_pipe",
         "Woodpile.Props.C09.dec_appends_only",
         "Woodpile.Props.C09.dec_lag_zero",
+        "Woodpile.Props.C09W.enc_lag_struct_partial",
+        "Woodpile.Props.C09W.enc_lag_le_partial",
+        "Woodpile.Props.C09W.enc_lag_le_prod_partial",
+        "Woodpile.Props.C09W.alloc_cap_le_prod",
+        "Woodpile.Props.C09W.dec_lag_zero_world_partial",
     ],
     families=[dict(name="hcobs_enc", quick=3000, thorough=100000, search=20000),
               dict(name="hcobs_dec", quick=2000, thorough=60000, search=20000),
